@@ -183,7 +183,19 @@ static int fragments_needed_one_data_local(xor_code_t *code_desc,
 {
   int *missing_data = get_missing_data(code_desc, fragments_to_exclude);
   int *missing_parity = get_missing_parity(code_desc, fragments_to_exclude);
-  int parity_index = index_of_connected_parity(code_desc, fragment_to_reconstruct, missing_parity, missing_data);
+  int parity_index;
+  int i = 0;
+
+  // The fragment being rebuilt is itself unavailable: a usable parity must
+  // not contain any *other* unavailable (excluded) data element
+  while (missing_data[i] > -1 && missing_data[i] != fragment_to_reconstruct) {
+    i++;
+  }
+  if (missing_data[i] < 0 && i < MAX_DATA - 1) {
+    missing_data[i] = fragment_to_reconstruct;
+    missing_data[i + 1] = -1;
+  }
+  parity_index = index_of_connected_parity(code_desc, fragment_to_reconstruct, missing_parity, missing_data);
   free(missing_data);
   free(missing_parity);
 
